@@ -1033,9 +1033,10 @@ class Normaliser(object):
 
     def run(self):
         if self.inline_only:
-            self._defs_to_lambdas = self._ifs_to_conditional_expressions = self._outline = self._merge_conditional_calls = lambda: None
+            self._defs_to_lambdas = self._ifs_to_conditional_expressions = self._outline = self._merge_conditional_calls = self._split_parallel_assignments = lambda: None
         self._defs_to_lambdas()
         if not self.helpers:
+            self._split_parallel_assignments()
             self._ifs_to_conditional_expressions()
             self._merge_conditional_calls()
             self._outline()
@@ -1055,12 +1056,44 @@ class Normaliser(object):
             self._collect_refresh()
         self._drop_unused()
         self._propagate_temporaries()
+        self._split_parallel_assignments()
         self._ifs_to_conditional_expressions()
         self._merge_conditional_calls()
         self._outline()
         for t in self.trees.values():
             ast.fix_missing_locations(t)
         return self
+
+    def _split_parallel_assignments(self):
+        """`a, b = x, y` with plain names on the left and no target read on the right is `a = x; b = y` (same order of evaluation and
+        binding as far as any reader can tell: every value is evaluated before it could be affected by a binding)"""
+        norm_ = self
+
+        def rewrite(stmts):
+            out = []
+            for s_ in stmts:
+                for fld in ('body', 'orelse', 'finalbody'):
+                    b = getattr(s_, fld, None)
+                    if isinstance(b, list) and b and isinstance(b[0], ast.stmt):
+                        setattr(s_, fld, rewrite(b))
+                for h in getattr(s_, 'handlers', []) or []:
+                    h.body = rewrite(h.body)
+                if isinstance(s_, ast.Assign) and len(s_.targets) == 1 and isinstance(s_.targets[0], ast.Tuple) and isinstance(s_.value, ast.Tuple) and \
+                        len(s_.targets[0].elts) == len(s_.value.elts) and all(isinstance(t, ast.Name) for t in s_.targets[0].elts) and \
+                        not any(isinstance(v, ast.Starred) for v in s_.value.elts):
+                    tn = {t.id for t in s_.targets[0].elts}
+                    if len(tn) == len(s_.targets[0].elts) and not any(isinstance(x, ast.Name) and x.id in tn for v in s_.value.elts for x in ast.walk(v)) and \
+                            all(_pure(v) or isinstance(v, (ast.Dict, ast.List, ast.Set, ast.Constant)) and not any(isinstance(x, ast.Call) for x in ast.walk(v))
+                                for v in s_.value.elts):
+                        for t, v in zip(s_.targets[0].elts, s_.value.elts):
+                            out.append(ast.copy_location(ast.Assign(targets=[t], value=v), s_))
+                        norm_.inlined.append(('parallel assignment', '', 'split'))
+                        continue
+                out.append(s_)
+            return out
+        for t in self.trees.values():
+            for fn in [n for n in ast.walk(t) if isinstance(n, ast.FunctionDef)]:
+                fn.body = rewrite(fn.body)
 
     def _merge_conditional_calls(self):
         """`f(args) if c else g(args)` (same argument expressions) -> `(f if c else g)(args)`: test, callee, arguments are evaluated in
